@@ -53,8 +53,9 @@ CLAIMS = {
    text="PROVED (Props/C10, C10b): every move the engine plays from a well-formed position yields a well-formed position - all clauses of C10 (WF_makeMove), hence along every legal move sequence (WF_reachable); "
         "WF is the spec's well-formedness seen through the abstraction (WF_iff_spec); null moves keep the shape. Tie: every field compared after every operation; an independent mailbox check of the clauses on the Go side "
         "(also after the string path); check clause against the spec; exhaustive single-attacker positions.", ref='5/C10, 10.4'),
- 'C11': dict(cat='proof', tech='Lean 4 totality theorem for the byte-level FEN parser + correspondence on valid and malformed streams',
-   text="PROVED (Props/C11): parseFen never panics for any byte string (parseFen_total). Tie: printed FENs of generated positions and 6000 mutated/garbage strings (non-ASCII digits, invalid UTF-8, doubled blanks, "
+ 'C11': dict(cat='proof', tech='Lean 4 theorems parseFen_total and fen_roundtrip on the byte-level FEN model + correspondence on valid and malformed streams',
+   text="PROVED (Props/C11, C11b): parseFen never panics for any byte string (parseFen_total); for every shape- and state-consistent position whose hash is the from-scratch hash, parsing the printed FEN "
+        "returns the position itself in every field (fen_roundtrip) and printing again reproduces the text (fen_canonical). Tie: printed FENs of generated positions and 6000 mutated/garbage strings (non-ASCII digits, invalid UTF-8, doubled blanks, "
         "counters at their limits) compared three-way ok/error/panic with all fields; round trip and canonical printing asserted on the Go side and against the spec printer.", ref='5/C11, 10.4'),
  'C12': dict(cat='proof', tech='Lean 4 theorems for all 2^64 occupancies (walker = geometry by induction, magic lookup = walker by kernel-checked index injectivity) + regenerated tie + exhaustive correspondence',
    text="PROVED (Props/C12a-d): rook/bishop/queen attack sets equal the squares reachable along open lines up to the first blocker for every square and all 2^64 occupancies (rookAttacks_exact etc.: ray-walker induction, "
